@@ -18,21 +18,18 @@ SRCTHM = os.path.join(COQ, "srcthm")
 FUNCS = ["prepareFds", "forkAndExecInChild"]
 PKG = os.path.join(REPO, "pkg", "forkexec")
 CHECKS = {   # lemma name in the shards -> (check expression, domain)
-    "sh_c04": ("(check_calls_on k04)", "DB_calls"),
-    "sh_c05": ("(check_calls_on k05)", "DB_calls"),
-    "sh_c16": ("(check_calls_on k16)", "DB_calls"),
-    "sh_c07_calls": ("(check_calls_on k07)", "DB_calls"),
+    "sh_calls": ("check_calls_all", "DB_calls"),
     "sh_c07_fates": ("check_fates", "DB_fates"),
     "sh_c07_refusal": ("check_refusal", "DB_calls"),
     "sh_c07_gate": ("check_gate", "DB_calls"),
 }
 THEOREMS = {
-    "C04": [("C04_source_issues_specified_calls", "sh_c04")],
-    "C05": [("C05_source_issues_specified_calls", "sh_c05"), ("SRC_loops_as_specified", "loops_ok")],
+    "C04": [("C04_source_issues_specified_calls", "sh_calls:k04")],
+    "C05": [("C05_source_issues_specified_calls", "sh_calls:k05"), ("SRC_loops_as_specified", "loops_ok")],
     "C06": [("C06_source_shuffle_is_model", "fd_ok")],
     "C08": [("SRC_loops_as_specified", "loops_ok")],
-    "C16": [("C16_source_issues_specified_calls", "sh_c16")],
-    "C07": [("C07_source_issues_specified_calls", "sh_c07_calls"), ("C07_source_failed_step_never_runs", "sh_c07_fates"),
+    "C16": [("C16_source_issues_specified_calls", "sh_calls:k16")],
+    "C07": [("C07_source_issues_specified_calls", "sh_calls:k07"), ("C07_source_failed_step_never_runs", "sh_c07_fates"),
             ("C07_source_refusal_never_runs", "sh_c07_refusal"), ("C07_source_gate_before_exec", "sh_c07_gate"),
             ("SRC_loops_as_specified", "loops_ok")],
 }
@@ -46,6 +43,15 @@ DOMAIN_TEXT = {
     "quick": "all 4096 combinations of the twelve interacting options x the nine others all off and all on (8192 configurations); failing steps: Credential / GIDMappings / GIDMappingsEnableSetgroups / empty Groups in {all set, none set, Credential only, Credential + setgroups allowed} x the eight other interacting options exhaustively x the nine others all on (1024 configurations, every call of each failed in turn)",
     "thorough": "all 4096 combinations of the twelve interacting options x the nine others all off, all on, exactly one on, exactly one off (81920 configurations); failing steps: x all off and all on (8192 configurations, every call of each failed in turn)",
 }
+
+
+def _config(m):
+    names_a = ["Credential", "GIDMappings", "GIDMappingsEnableSetgroups", "Groups=[]", "NoSetGroups", "DropCaps", "NoNewPrivs",
+               "Seccomp", "Ptrace", "StopBeforeSeccomp", "SyncFunc", "UnshareCgroupAfterSync"]
+    names_b = ["CLONE_NEWUSER", "CLONE_NEWPID", "CLONE_NEWNS", "CTTY", "PivotRoot", "HostName", "DomainName", "WorkDir", "ExecFile"]
+    a = [x.strip() == "true" for x in m.group(1).split(";")]
+    b = [x.strip() == "true" for x in m.group(2).split(";")]
+    return {n: v for n, v in zip(names_a + names_b, a + b)}
 
 
 def _bits(k):
@@ -70,7 +76,7 @@ def _key(tier):
     files += [os.path.join(COQ, "theories", "Launch", x) for x in ("ChildIR.v", "ChildSeq.v")]
     files.append(os.path.abspath(__file__))
     for f in files:
-        h.update(f.encode())
+        h.update(os.path.relpath(f, REPO if f.startswith(REPO + os.sep) else ROOT).encode())   # content, not location: a copy of /verif shares the result
         h.update(open(f, "rb").read())
     return h.hexdigest()[:20]
 
@@ -128,7 +134,7 @@ def _compute(tier, d, res, log):
         thm = thm.replace("@SHARDS:%s@" % lem, " ".join("destruct H as [<-|H]; [exact Sh%d.%s |]." % (k, lem) for k in ks))
     open(os.path.join(d, "ChildSrcThm.v"), "w").write(thm)
     open(os.path.join(d, "Tier.v"), "w").write(
-        "From Coq Require Import List Bool.\nImport ListNotations.\nFrom Gen Require Import ChildSrcGen ChildSrcBase.\n"
+        "From Coq Require Import List Bool.\nImport ListNotations.\nFrom GS Require Import Launch.ChildSeq.\nFrom Gen Require Import ChildSrcGen ChildSrcBase.\n"
         "Definition DB_calls : list (list bool) := %s.\nDefinition DB_fates : list (list bool) := %s.\n"
         "Definition PRE_fates : list (list bool) := %s.\n" % (dbc, dbf, "all_bits 4" if len(pre_f) == 16 else "[" + "; ".join(_bits(k) for k in pre_f) + "]"))
     for fn in ("ChildSrcGen.v", "ChildSrcBase.v", "Tier.v"):
@@ -172,7 +178,7 @@ def _compute(tier, d, res, log):
             if rc != 0:
                 failed.setdefault(lem, []).append((k, err[-400:]))
     res["cmds"].append("coqc P<k>_<lemma>.v  (16 shards x %d lemmas, vm_compute)" % len(CHECKS))
-    res["failed_lemmas"] = sorted(failed)
+    res["failed_lemmas"] = sorted(failed)      # the per-part keys of sh_calls are appended by the diagnosis below
     if failed:
         res.update(ok=False, stage="theorems")
         # 3. diagnosis: the first configuration of the domain on which each failing check is false, with what the source does there
@@ -188,6 +194,24 @@ def _compute(tier, d, res, log):
                     res["diag"][lem]["case"] = {"files": [int(x.strip().strip("()")) for x in m.group(1).split(";") if x.strip()],
                                                 "pipe": int(m.group(2).strip("()")), "exec": int(m.group(3).strip("()")),
                                                 "closed": [int(x.strip().strip("()")) for x in m.group(4).split(";") if x.strip()]}
+                continue
+            if lem == "sh_calls":
+                cross_only = all(k == -2 for k, _ in failed[lem])
+                for part in ("k04", "k05", "k16", "k07"):
+                    finder = ("first_bad_cross (check_calls_on %s)" % part) if cross_only else ("first_bad (check_calls_on %s) DB_calls" % part)
+                    body = (hdr + "From Coq Require Import String ZArith.\nOpen Scope string_scope.\nOpen Scope Z_scope.\n"
+                            "Definition bad := Eval vm_compute in %s.\nPrint bad.\n"
+                            "Definition shown := Eval vm_compute in show_bad %s bad.\nPrint shown.\n" % (finder, part))
+                    fn = "D_calls_%s.v" % part
+                    open(os.path.join(d, fn), "w").write(body)
+                    rc, out, err, dt = _coqc(d, fn, timeout=2400)
+                    if rc != 0 or re.search(r"bad\s*=\s*Some", out):
+                        key = "sh_calls:" + part
+                        res["failed_lemmas"].append(key)
+                        res["diag"][key] = {"shards_failing": [k for k, _ in failed[lem]], "coq": (out if rc == 0 else err)[-6000:]}
+                        m = re.search(r"bad\s*=\s*Some\s*\(\s*\[(.*?)\]\s*,\s*\[(.*?)\]\s*\)", out, re.S)
+                        if m:
+                            res["diag"][key]["configuration"] = _config(m)
                 continue
             if lem == "loops_ok":
                 body = (hdr + "Definition bad := Eval vm_compute in (find (fun c => negb (check_loops flags_plain (fst c) (snd c))) loop_cases, "
@@ -210,12 +234,7 @@ def _compute(tier, d, res, log):
             res["diag"][lem] = {"shards_failing": [k for k, _ in failed[lem]], "coq": (out if rc == 0 else err)[-6000:]}
             m = re.search(r"bad\s*=\s*Some\s*\(\s*\[(.*?)\]\s*,\s*\[(.*?)\]\s*\)", out, re.S)
             if m:
-                names_a = ["Credential", "GIDMappings", "GIDMappingsEnableSetgroups", "Groups=[]", "NoSetGroups", "DropCaps", "NoNewPrivs",
-                           "Seccomp", "Ptrace", "StopBeforeSeccomp", "SyncFunc", "UnshareCgroupAfterSync"]
-                names_b = ["CLONE_NEWUSER", "CLONE_NEWPID", "CLONE_NEWNS", "CTTY", "PivotRoot", "HostName", "DomainName", "WorkDir", "ExecFile"]
-                a = [x.strip() == "true" for x in m.group(1).split(";")]
-                b = [x.strip() == "true" for x in m.group(2).split(";")]
-                res["diag"][lem]["configuration"] = {n: v for n, v in zip(names_a + names_b, a + b)}
+                res["diag"][lem]["configuration"] = _config(m)
         return
     # 4. the theorems: shards renamed into the modules the theorem file imports
     for k in range(16):
@@ -267,8 +286,11 @@ def apply_to_check(c, prop):
     if res["stage"] in ("translate", "definitions", "combine", "axioms"):
         return [{"theorem": t, "stage": res["stage"], "detail": res.get("detail", "")[-1500:]} for t, _ in mine]
     out = []
+    fl = set(res["failed_lemmas"])
+    if "sh_calls" in fl and not any(x.startswith("sh_calls:") for x in fl):
+        fl |= {"sh_calls:k04", "sh_calls:k05", "sh_calls:k16", "sh_calls:k07"}     # the diagnosis could not tell the parts apart
     for t, lem in mine:
-        if lem in res["failed_lemmas"]:
+        if lem in fl:
             out.append({"theorem": t, "stage": "theorems", "diag": res["diag"].get(lem, {})})
         else:
             c.discharged += 1
